@@ -61,6 +61,8 @@ def ty_coq(t):
         return "(nd F)"
     if t == "LAM":
         return "L"
+    if t == "lamv":
+        return "(lamv F)"
     if t == "MAT":
         return "M"
     if t == "CL":
@@ -358,6 +360,12 @@ class Fn:
                 return b, "(np_slogdet_logabs %s)" % c, "F"
         b, c, t = self.expr(e.value, env)
         sl = e.slice
+        if t == "lamv" and isinstance(sl, ast.Tuple) and len(sl.elts) == 2:
+            b1, c1, t1 = self.expr(sl.elts[0], env)
+            b2, c2, t2 = self.expr(sl.elts[1], env)
+            if t1 == ("list", "int") and t2 == ("list", "int"):
+                v = self.fresh()
+                return b + b1 + b2 + [(v, "lam_take2 %s %s %s" % (c, c1, c2))], v, ("list", "F")
         if isinstance(t, tuple) and t[0] == "dict" and not isinstance(sl, (ast.Slice, ast.Tuple)):
             bi, ci, ti = self.expr(sl, env)
             if ti != "int" or t[1] is None:
@@ -571,6 +579,20 @@ class Fn:
             b1, c1, t1 = self.expr(e.args[0], env)
             if t1 == "arr2":
                 return b1, "(np_mean_rows %s)" % c1, ("list", "F")
+        if fn == "isinstance" and len(e.args) == 2 and not e.keywords:
+            b, c, t = self.expr(e.args[0], env)
+            cls = ast.unparse(e.args[1])
+            if t == "lamv" and cls in ("numbers.Real", "np.ndarray"):
+                return b, "(%s %s)" % ("lam_is_real" if cls == "numbers.Real" else "lam_is_array", c), "bool"
+        if fn == "float" and len(e.args) == 1 and not e.keywords:
+            b, c, t = self.expr(e.args[0], env)
+            if t == "lamv":
+                v = self.fresh()
+                return b + [(v, "lam_float %s" % c)], v, "F"
+        if fn == "math.fsum" and "math_fsum" in self.externs and len(e.args) == 1 and not e.keywords:
+            b, c, t = self.expr(e.args[0], env)
+            if t == ("list", "F"):
+                return b, "(math_fsum %s)" % c, "F"
         if fn == "np.copy" and len(e.args) == 1 and not e.keywords:
             b, c, t = self.expr(e.args[0], env)
             if t in ("arr2", ("list", "F")):
@@ -1110,7 +1132,7 @@ TARGETS = {
                                  {("assign_point_cluster_labels", "label_assignment_cost"): "arr2",
                                   ("assign_point_cluster_labels", "label_switching_cost"): "nd",
                                   ("assign_point_cluster_labels", "return"): ("tuple", [("list", "int"), "F"])}),
-    "solver": ("admm/solver.py", ["soft_threshold_prox", "admm_update_u", "admm_update_z", "check_convergence", "x_update_prox"],
+    "solver": ("admm/solver.py", ["soft_threshold_prox", "admm_update_u", "admm_update_z", "check_convergence", "x_update_prox", "compute_lambda_sum"],
                {("soft_threshold_prox", "scaled_point_sum"): "F", ("soft_threshold_prox", "lambda_sum"): "F",
                 ("soft_threshold_prox", "rho_times_r"): "F", ("soft_threshold_prox", "return"): "F",
                 ("admm_update_u", "u"): ("list", "F"), ("admm_update_u", "x"): ("list", "F"), ("admm_update_u", "z"): ("list", "F"),
@@ -1126,7 +1148,8 @@ TARGETS = {
                 ("check_convergence", "z"): ("list", "F"), ("check_convergence", "z_old"): ("list", "F"),
                 ("check_convergence", "return"): ("tuple", ["bool", "F", "F", "F", "F"]),
                 ("x_update_prox", "empirical_covariance"): "MAT", ("x_update_prox", "z_minus_u"): "MAT", ("x_update_prox", "rho"): "F",
-                ("x_update_prox", "return"): ("list", "F")}),
+                ("x_update_prox", "return"): ("list", "F"),
+                ("compute_lambda_sum", "lambda_parameter"): "lamv", ("compute_lambda_sum", "return"): "F"}),
     "cluster_metrics": ("cluster_metrics.py", ["bayesian_information_criterion"],
                         {("bayesian_information_criterion", "model"):
                          ("record", "bic_model",
@@ -1204,13 +1227,16 @@ KERNEL_MODULES = {
                  "  Variable np_mat_sub : M -> M -> M.            (* a - b, elementwise *)\n"
                  "  Variable np_mat_scale : F -> M -> M.          (* c * a, elementwise *)\n"
                  "  Variable np_diag : list F -> M.               (* np.diag of a 1-D array *)\n"
-                 "  Variable compress_matrix : M -> list F.       (* matrix_compression.compress_matrix (modelled in Model/TriIndex.v) *)\n"),
+                 "  Variable compress_matrix : M -> list F.       (* matrix_compression.compress_matrix (modelled in Model/TriIndex.v) *)\n"
+                 "  Variable math_fsum : list F -> F.             (* math.fsum: the exactly rounded sum *)\n"),
         "externs": {
             "fleb": ([], None, "fleb", False), "flit": ([], None, "flit", False),
             "math_sqrt": ([], None, "math_sqrt", False), "np_norm": ([], None, "np_norm", False),
             "fsqrt": ([], None, "fsqrt", False), "np_eigh": ([], None, "np_eigh", False), "np_matmul": ([], None, "np_matmul", False),
             "np_diag": ([], None, "np_diag", False),
             "matrix_compression.compress_matrix": (["MAT"], ("list", "F"), "compress_matrix", False),
+            "math_fsum": ([], None, "math_fsum", False),
+            "unique_values.locations_index_slices": (["int"] * 5, ("tuple", [("list", "int"), ("list", "int")]), "g_locations_index_slices", True),
             "compute_lambda_sum": (["LAM", "int", "int", "int", "int", "int"], "F", "compute_lambda_sum", True),
             "unique_values.locations_compressed": (["int"] * 5, ("list", "int"), "g_locations_compressed", True),
         }},
